@@ -2806,6 +2806,8 @@ class EvalAligned(ColExpr):
         self.with_: AstNode = None if with_ is None else with_._ast
         self._dtype = self.val.dtype()
         self._ftype = self.val.ftype()
+        # identifies the temporary column holding the aligned values (polars backend)
+        self._uuid = uuid.uuid1()
 
     def dtype(self) -> Dtype | None:
         if self._dtype is None:
